@@ -219,6 +219,34 @@ generate_jobs = Contract(
 )
 
 
+def gj_replay(inputs, clause):
+    """real generate_jobs on a header-only BAM with one contig of the counter-model's length"""
+    import os
+    from pyvc import bamreplay as B
+    from pyvc.contract import import_real
+    length = int(inputs['witness']['length'])
+    b, m = int(inputs['bin_size']), int(inputs['bins_per_job'])
+    if length < 1 or length > 10 ** 9:
+        return {'status': 'no-input', 'note': 'contig length %d not realisable in a BAM header' % length}
+    d = B.scratch('c12j_')
+    try:
+        path = os.path.join(d, 'in.bam')
+        B.write_bam(path, [('ctgA', length)], [])
+        jobs = list(import_real(F, 'generate_jobs')(path, b, m))
+    finally:
+        B.cleanup(d)
+    W = b * m
+    want = [('ctgA', j * W, (j + 1) * W) for j in range(-(-length // W))]
+    obs = {'outcome': 'return', 'value': {'jobs': [list(j) for j in jobs[:6]], 'n_jobs': len(jobs), 'expected_n_jobs': len(want),
+                                          'contig_length': length, 'bin_size': b, 'bins_per_job': m}}
+    if [tuple(j) for j in jobs] != want:
+        return {'status': 'confirmed', 'observed': obs, 'failed': [{'clause': clause, 'why': 'job intervals do not tile the contig'}]}
+    return {'status': 'not-reproduced', 'observed': obs}
+
+
+generate_jobs.replay = gj_replay
+
+
 def lemma_disjoint_bins():
     """Two sites owned by different jobs fall into different bins when the job width is a multiple of the bin size
     (uses the ownership clause start <= site < end of count_fragments_binned and the tiling of generate_jobs);
